@@ -11,156 +11,6 @@ import (
 	"strings"
 )
 
-type gAtom struct {
-	Neg  bool
-	Expr ast.Expr
-}
-
-type kindTest struct {
-	Ok, Val types.Object
-	Operand ast.Expr
-	T       types.Type
-	Pos     token.Pos
-}
-
-type lAction struct {
-	Kind  string // call, assign, return, incdec, other
-	Stmt  ast.Stmt
-	Guard []gAtom
-}
-
-type loopNF struct {
-	Tests     []*kindTest
-	Actions   []lAction
-	Undecided []string
-}
-
-func splitAnd(e ast.Expr) []ast.Expr {
-	e = unparen(e)
-	if b, ok := e.(*ast.BinaryExpr); ok && b.Op == token.LAND {
-		return append(splitAnd(b.X), splitAnd(b.Y)...)
-	}
-	return []ast.Expr{e}
-}
-
-func atomOf(e ast.Expr, neg bool) gAtom {
-	e = unparen(e)
-	for {
-		u, ok := e.(*ast.UnaryExpr)
-		if !ok || u.Op != token.NOT {
-			break
-		}
-		neg = !neg
-		e = unparen(u.X)
-	}
-	return gAtom{neg, e}
-}
-
-func (c *Ctx) loopNormalForm(body *ast.BlockStmt) *loopNF {
-	nf := &loopNF{}
-	var walk func(stmts []ast.Stmt, guard []gAtom)
-	recordTest := func(s ast.Stmt) bool {
-		as, ok := s.(*ast.AssignStmt)
-		if !ok || len(as.Lhs) != 2 || len(as.Rhs) != 1 {
-			return false
-		}
-		ta, ok := unparen(as.Rhs[0]).(*ast.TypeAssertExpr)
-		if !ok || ta.Type == nil {
-			return false
-		}
-		kt := &kindTest{Operand: ta.X, T: c.typeOf(ta.Type), Pos: as.Pos()}
-		if id, ok := as.Lhs[0].(*ast.Ident); ok && id.Name != "_" {
-			kt.Val = c.obj(id)
-		}
-		if id, ok := as.Lhs[1].(*ast.Ident); ok && id.Name != "_" {
-			kt.Ok = c.obj(id)
-		}
-		nf.Tests = append(nf.Tests, kt)
-		return true
-	}
-	walk = func(stmts []ast.Stmt, guard []gAtom) {
-		for i, s := range stmts {
-			switch x := s.(type) {
-			case *ast.AssignStmt:
-				if recordTest(x) {
-					continue
-				}
-				nf.Actions = append(nf.Actions, lAction{"assign", x, append([]gAtom(nil), guard...)})
-			case *ast.ExprStmt:
-				nf.Actions = append(nf.Actions, lAction{"call", x, append([]gAtom(nil), guard...)})
-			case *ast.IncDecStmt:
-				nf.Actions = append(nf.Actions, lAction{"incdec", x, append([]gAtom(nil), guard...)})
-			case *ast.ReturnStmt:
-				nf.Actions = append(nf.Actions, lAction{"return", x, append([]gAtom(nil), guard...)})
-			case *ast.BlockStmt:
-				walk(x.List, guard)
-			case *ast.IfStmt:
-				if x.Init != nil && !recordTest(x.Init) {
-					nf.Undecided = append(nf.Undecided, "if-init statement that is not a kind test")
-				}
-				conds := splitAnd(x.Cond)
-				g := append([]gAtom(nil), guard...)
-				for _, ce := range conds {
-					g = append(g, atomOf(ce, false))
-				}
-				body := x.Body.List
-				endsContinue := false
-				if n := len(body); n > 0 {
-					if br, ok := body[n-1].(*ast.BranchStmt); ok && br.Tok == token.CONTINUE && br.Label == nil {
-						endsContinue = true
-						body = body[:n-1]
-					}
-				}
-				walk(body, g)
-				var neg []gAtom
-				if x.Else != nil || endsContinue {
-					if len(conds) != 1 {
-						nf.Undecided = append(nf.Undecided, "negation of a conjunction (else / continue after a compound condition)")
-						continue
-					}
-					neg = append(append([]gAtom(nil), guard...), atomOf(conds[0], true))
-				}
-				if x.Else != nil {
-					switch e := x.Else.(type) {
-					case *ast.BlockStmt:
-						walk(e.List, neg)
-					default:
-						walk([]ast.Stmt{e}, neg)
-					}
-				}
-				if endsContinue && x.Else == nil {
-					walk(stmts[i+1:], neg)
-					return
-				}
-			case *ast.BranchStmt:
-				nf.Undecided = append(nf.Undecided, x.Tok.String()+" statement")
-			case *ast.EmptyStmt:
-			default:
-				nf.Undecided = append(nf.Undecided, "statement not understood")
-			}
-		}
-	}
-	walk(body.List, nil)
-	return nf
-}
-
-// elemForm classifies an expression relative to the range value `item`: "raw" (item), "val" (item.<valueAccessor>()), "".
-func (c *Ctx) elemForm(e ast.Expr, item types.Object) string {
-	e = unparen(e)
-	if item == nil {
-		return ""
-	}
-	if c.obj(e) == item {
-		return "raw"
-	}
-	if call, ok := e.(*ast.CallExpr); ok && len(call.Args) == 0 {
-		if sel, ok := unparen(call.Fun).(*ast.SelectorExpr); ok && c.obj(sel.X) == item && c.isValueAccessor(c.callee(call)) {
-			return "val"
-		}
-	}
-	return ""
-}
-
 var accessorCache = map[*Ctx]map[string]bool{}
 
 // isValueAccessor: method of the field interface with signature func() any whose container implementations return the registered ego
@@ -266,26 +116,6 @@ func (c *Ctx) wrapperKind(w *types.Named) string {
 	}
 	if st.NumFields() == 1 {
 		return c.kindOfType(st.Field(0).Type())
-	}
-	return ""
-}
-
-// testValid: the kind test examines the range element in a form for which the asserted type identifies kind K.
-func (c *Ctx) testKind(kt *kindTest, item types.Object) string {
-	form := c.elemForm(kt.Operand, item)
-	k := c.kindOfType(kt.T)
-	if k == "" || form == "" {
-		return ""
-	}
-	_, isBasic := kt.T.(*types.Basic)
-	_, isPtr := kt.T.(*types.Pointer)
-	switch {
-	case isBasic && form == "val":
-		return k
-	case isPtr && form == "raw":
-		return k
-	case !isBasic && !isPtr: // container interface: on the field or on its value (getVal of a container is its ego, same kind)
-		return k
 	}
 	return ""
 }
